@@ -66,15 +66,18 @@ func c18Alphabet() []c18Val {
 	}
 	add("i", "0", "-1", "2147483648", "9007199254740991", "9007199254740992", "9007199254740993", "-9007199254740993",
 		"9223372036854775807", "-9223372036854775808", "1234567890123456789", "null")
-	add("f", "0.1", "-2.5", "1e-7", "1.7976931348623157e308", "5e-324", "3", "123456789.12345678", "0.30000000000000004", "-0", "1e21", "null")
+	add("f", "0.1", "-2.5", "1e-7", "1.7976931348623157e308", "5e-324", "3", "123456789.12345678", "0.30000000000000004", "-0", "1e21", "null",
+		// whole numbers at the boundaries between the spellings a JSON encoder chooses: below/above 2^53, 2^63, 2^64, 1e20/1e21
+		"1e20", "-1e20", "9223372036854775808", "-9223372036854775809", "18446744073709551616", "999999999999999900000", "4503599627370496", "1e15")
 	add("s", `""`, `"a"`, `"héllo ✓"`, `"quote\" newline\n backslash\\ tab\t"`, `"<tag> & 'x'"`, `"\u0000"`, `"9007199254740993"`, "null")
 	add("b", "true", "false", "null")
 	add("d", `"2020-01-01T00:00:00Z"`, `"2020-01-01T00:00:00.123456789Z"`, `"1999-12-31T23:59:59.999999999Z"`, `"2020-06-01T12:00:00+02:00"`, `"0001-01-02T00:00:00Z"`, `"9999-12-31T23:59:59Z"`, "null")
 	add("blob", `"00ff"`, `"00"`, `"deadbeef00112233445566778899aabbccddeeff"`, "null")
-	add("j", `{"a": 1}`, `[1, 2, {"b": null}]`, `"str"`, `12`, `1.5`, `true`, `{"a": {"b": {"c": []}}}`, `{"big": 9007199254740993}`, `9007199254740993`, `{}`, `[]`, `{"k": "v", "n": -0.5, "l": [true, false, null]}`, "null")
+	add("j", `{"a": 1}`, `[1, 2, {"b": null}]`, `"str"`, `12`, `1.5`, `true`, `{"a": {"b": {"c": []}}}`, `{"big": 9007199254740993}`, `9007199254740993`, `{}`, `[]`, `{"k": "v", "n": -0.5, "l": [true, false, null]}`, "null",
+		`1e20`, `{"n": 1e20, "m": [18446744073709551616, -1e20]}`, `9223372036854775808`, `1e21`)
 	add("ai", `[1, null, 3]`, `[]`, `[9007199254740993]`, `[-9223372036854775808, 9223372036854775807]`, "null")
 	add("ani", `[1, 2]`, `[]`, `[9007199254740993]`)
-	add("af", `[1.5, null]`, `[0.1, 1e-7, 3]`, `[]`)
+	add("af", `[1.5, null]`, `[0.1, 1e-7, 3]`, `[]`, `[1e20, 9223372036854775808, 1e21, -0]`)
 	add("as", `["a", null, ""]`, `[]`, `["✓"]`)
 	add("ab", `[true, null, false]`, `[]`)
 	return out
@@ -125,7 +128,7 @@ func runC18(args []string) int {
 	st.outcomes.Range(func(k, v any) bool { no++; return true })
 	r.Coverage["evaluations"] = st.docsCompared
 	r.Coverage["distinct_nontrivial"] = no
-	r.Coverage["rule"] = "values: one document per value of the per-kind edge alphabets (Int incl. +-2^53+-1 and int64 extremes, Float incl. 17-digit/sub-normal/max, String incl. escapes and NUL, DateTime to the nanosecond and with zones, Blob, JSON incl. nested and big integers, arrays with nulls, explicit nulls) + documents holding all fields, x {pretty, compact}; relations: every C09 data set x every subset of {g0,p0,p1,k0,o0} updated after creation x {pretty, compact} x collection subsets; distinct = distinct (field, value) pairs and distinct (data set, aged subset) pairs"
+	r.Coverage["rule"] = "values: one document per value of the per-kind edge alphabets (Int incl. +-2^53+-1 and int64 extremes, Float incl. 17-digit/sub-normal/max and whole numbers around 2^53, 2^63, 2^64, 1e20, 1e21 (also inside JSON values and Float arrays), String incl. escapes and NUL, DateTime to the nanosecond and with zones, Blob, JSON incl. nested and big integers, arrays with nulls, explicit nulls) + documents holding all fields, x {pretty, compact}; relations: every C09 data set x every subset of {g0,p0,p1,k0,o0} updated after creation x {pretty, compact} x collection subsets; distinct = distinct (field, value) pairs and distinct (data set, aged subset) pairs"
 	r.Coverage["exports"] = st.exports
 	r.Coverage["imports"] = st.imports
 	r.Coverage["value_documents"] = st.valueDocs
